@@ -144,7 +144,8 @@ def stress_save(binary, seed):
         path = os.path.join(root, "aDoc.god")
         open(path, "w").write(big_text(0, pad))
         uri = lsp.file_uri(path)
-        kinds = ["textDocument/completion", "textDocument/definition", "textDocument/diagnostic"]
+        # documentSymbol is served on the main thread: it overlaps the WORKERS that are parsing the same uncached document
+        kinds = ["textDocument/completion", "textDocument/definition", "textDocument/diagnostic", "textDocument/documentSymbol"]
         n = rng.randint(1, 5)
         reqs = [(rng.choice(kinds), rng.choice([0, 2])) for _ in range(n)]
         save_other = rng.random() < 0.3          # the save is about another file: only the re-indexing overlaps
